@@ -324,6 +324,20 @@ func (f *Frame) callEffects(in ssa.CallInstruction, blocks map[*ssa.BasicBlock]b
 		name = callee.String()
 	} else if cc.IsInvoke() {
 		name = cc.Method.FullName()
+	} else {
+		// unknown function value: writes through pointer arguments
+		for _, a := range cc.Args {
+			if p, ok := a.Type().Underlying().(*types.Pointer); ok {
+				srt := e.sortOf(p.Elem())
+				ef.heapPT[srt] = p.Elem()
+				t := heapTarget{}
+				if f.definedOutside(a, blocks) {
+					t.base = a
+				}
+				ef.heapP[srt] = append(ef.heapP[srt], t)
+			}
+		}
+		name = "func value " + cc.Value.Name()
 	}
 	ef.unknownCalls = append(ef.unknownCalls, name)
 }
